@@ -347,7 +347,7 @@ PROPS["C07"] = {
         Job("soyhtml", "H_datarefs", "2,2,true,true", workers=16, timeout=900),
         Job("soyhtml", "H_datarefsLate", "1,2,1", workers=16, timeout=900),
         Job("soyhtml", "H_bothParamStyles", "0..2", workers=2),
-        Job("soyhtml", "H_datarefs", "2,3,true,true", tier="thorough", workers=16, timeout=3000),
+        Job("soyhtml", "H_datarefs", "1,3,true,true", tier="thorough", workers=16, timeout=3000),
         Job("soyhtml", "H_datarefs", "1,2,false,true", tier="thorough", workers=16, timeout=3000),
         Job("soyhtml", "H_datarefsLate", "1,2,2", tier="thorough", workers=16, timeout=3000),
         Job("soyhtml", "H_datarefs", "2,2,true,false", tier="thorough", workers=16, timeout=3000),
